@@ -139,6 +139,7 @@ type FuncSpec struct {
 	Pos      string
 	Bound    bool // set when matched to an SSA function
 	NoNil    []string
+	Nilable  map[string]bool // parameters that may be nil (exempt from the default non-nil precondition of the safety sweep)
 	PostUpdates []Update // ghost updates evaluated in the post-state (may mention result); applied after `updates`
 	Bridges  []Update // ghost(params) = expr over the CURRENT ghost state at return: proved equal to the declared update, then usable
 	PureParams []string // function-typed parameters whose calls have no effect (checked at every call site)
@@ -727,6 +728,19 @@ func (p *sparser) parseClauses(fs *FuncSpec) {
 			p.next()
 			for {
 				fs.PureParams = append(fs.PureParams, p.ident())
+				if p.isOp(",") {
+					p.next()
+					continue
+				}
+				break
+			}
+		case "nilable":
+			p.next()
+			for {
+				if fs.Nilable == nil {
+					fs.Nilable = map[string]bool{}
+				}
+				fs.Nilable[p.ident()] = true
 				if p.isOp(",") {
 					p.next()
 					continue
